@@ -27,7 +27,7 @@ PROGRAMS = [
     ('one', '형.'),
     ('straight', '%s 항. %s 항.. %s 항. %s 항..' % (P65, P66, P67, P49)),
     ('loop5', loop_program(5)),
-    ('heart-return', '%s♥ 항. %s♡ 항. %s♥' % (P49, P49, P49)),
+    ('heart-return', '형...♥ 흣. 형♡ 형.... 항...?♥ %s 항.' % P65),
     ('exit0', '%s 항. %s 흑. 항 %s 항.' % (P65, P66, P67)),
     ('exit1', '%s 항.. %s 흑.. 항 %s 항.' % (P65, P66, P67)),
     ('encoding', '%s 항. %s 항. %s 항.' % (P65, big(216, 256), P66)),
